@@ -290,6 +290,8 @@ def build():
         add_case("integer", "integer/%s optional with default" % (f or "-"), dict(base, **{"in": "query", "default": 5}))
         add_case("integer", "integer/%s optional allowEmptyValue" % (f or "-"), dict(base, **{"in": "query", "allowEmptyValue": True}))
         add_case("integer", "integer/%s required allowEmptyValue" % (f or "-"), dict(base, **{"in": "query", "required": True, "allowEmptyValue": True}))
+        add_case("integer", "integer/%s required allowEmptyValue in formData" % (f or "-"), dict(base, **{"in": "formData", "required": True, "allowEmptyValue": True}))
+        add_case("integer", "integer/%s optional allowEmptyValue in formData" % (f or "-"), dict(base, **{"in": "formData", "allowEmptyValue": True}))
     add_case("integer", "integer enum", {"in": "query", "type": "integer", "format": "int32", "enum": [1, 3]})
     add_case("integer", "integer max excl", {"in": "query", "type": "integer", "format": "int64", "minimum": 2, "maximum": 7, "exclusiveMaximum": True, "required": True})
     # numbers
@@ -311,6 +313,7 @@ def build():
         add_case("string", "string %s in path" % vn, dict(base, **{"in": "path", "required": True}))
         add_case("string", "string %s optional with default" % vn, dict(base, **{"in": "query", "default": "ab"}))
         add_case("string", "string %s required allowEmptyValue" % vn, dict(base, **{"in": "query", "required": True, "allowEmptyValue": True}))
+        add_case("string", "string %s required allowEmptyValue in formData" % vn, dict(base, **{"in": "formData", "required": True, "allowEmptyValue": True}))
     # booleans
     for loc in locs:
         add_case("boolean", "boolean required in %s" % loc, {"in": loc, "type": "boolean", "required": True})
